@@ -5,7 +5,7 @@
 namespace ddl {
 using namespace yakushima;
 
-enum K { CREATE, DELETE, FIND, PUTN, GETN };
+enum K { CREATE, DELETE, FIND, PUTN, GETN, LIST };
 struct Op {
     K k;
     std::string name;
@@ -15,9 +15,10 @@ struct Rec {
     Op op;
     uint64_t call = 0, ret = 0;
     status st{};
+    std::vector<std::string> names; // LIST result
 };
 inline std::string opn(const Op& o) {
-    const char* n[] = {"create", "delete", "find", "put", "get"};
+    const char* n[] = {"create", "delete", "find", "put", "get", "list"};
     return std::string(n[o.k]) + "(" + ykc::hex(o.name) + ")";
 }
 
@@ -99,6 +100,12 @@ public:
                     r.st = get<char>(std::string_view(o.name), "k", g);
                     break;
                 }
+                case LIST: {
+                    std::vector<std::pair<std::string, tree_instance*>> l;
+                    r.st = list_storages(l);
+                    for (auto& e : l) r.names.push_back(e.first);
+                    break;
+                }
             }
             r.ret = ykmc::op_end();
             recs[size_t(tid)].push_back(r);
@@ -122,6 +129,12 @@ public:
             case FIND: return ex == (r.st == status::OK);
             case PUTN: return ex ? r.st == status::OK : r.st == status::WARN_STORAGE_NOT_EXIST;
             case GETN: return ex ? r.st == status::OK : r.st == status::WARN_STORAGE_NOT_EXIST;
+            case LIST: {
+                // the listing is the storage set of one instant, in ascending order; WARN_NOT_EXIST iff that set is empty
+                std::vector<std::string> want(m.begin(), m.end());
+                if (r.names != want) return false;
+                return m.empty() ? r.st == status::WARN_NOT_EXIST : r.st == status::OK;
+            }
         }
         return false;
     }
@@ -131,7 +144,14 @@ public:
         for (auto& tr : recs) {
             for (auto& rc : tr) {
                 all.push_back(&rc);
-                hist << "T" << rc.tid << " " << opn(rc.op) << "[" << rc.call << "," << rc.ret << "]->" << ykc::st_name(rc.st) << "; ";
+                hist << "T" << rc.tid << " " << opn(rc.op) << "[" << rc.call << "," << rc.ret << "]->" << ykc::st_name(rc.st);
+                if (rc.op.k == LIST) {
+                    hist << "{";
+                    for (auto& nm : rc.names) hist << ykc::hex(nm) << " ";
+                    hist << "}";
+                    dig << rc.names.size() << ":";
+                }
+                hist << "; ";
                 dig << int(rc.st) << "|";
             }
         }
@@ -238,6 +258,11 @@ inline void scenarios(std::vector<hm::Scenario>& out) {
             {{}, {{{CREATE, a}, {DELETE, a}}, {{CREATE, a}}}, false, 2, 2},
             {{a}, {{{DELETE, a}, {CREATE, a}}, {{DELETE, a}}}, false, 2, 2},
             {{}, {{{CREATE, a}}, {{CREATE, a}}, {{FIND, a}}}, false, 2, 2},
+            // a listing racing ONE create or delete: it is the sorted storage set before or after that operation (a listing is a
+            // scan, not a snapshot: against two changes it may legitimately combine them, so only one change is raced)
+            {{}, {{{CREATE, a}}, {{LIST, ""}}}, true, 2, 3},
+            {{a}, {{{DELETE, a}}, {{LIST, ""}}}, true, 2, 3},
+            {{a}, {{{CREATE, b}}, {{LIST, ""}}}, true, 2, 3},
             // with the epoch and gc threads running: the entry (which embeds the tree_instance) that a delete retires may be
             // reclaimed as soon as the deleting session has left
             {{a}, {{{DELETE, a}}}, true, 2, 3, true},
